@@ -225,6 +225,8 @@ theorem mirror_envRun {n o} (fuel : Nat) (evs : List Ev) :
   | nil => intro s h; exact h
   | cons ev evs ih => intro s h; exact ih _ (mirror_envStep h fuel ev)
 
+theorem Outcome.toSt_ne_ref (o : Outcome) (g : FId) : o.toSt ≠ .result (.ref g) := by cases o <;> simp [Outcome.toSt]
+
 /-- following a chain of `m` resolved futures from `b` reads the state of `b + m` -/
 theorem deref_chain (s : State) (b : Nat) : ∀ (m fuel : Nat), m < fuel →
     (∀ i, i < m → s.st (b + i) = .result (.ref (b + i + 1))) →
